@@ -405,7 +405,96 @@ def gen_svs(pb: ast.AST) -> str:
     return "\n".join(out) + "\n"
 
 
+# ======================================================================================================
+#  `Problem.variables` (problem.py): memo slot, shortcut test, general path
+# ======================================================================================================
+
+def gen_problem_variables(pb: ast.AST) -> str:
+    where = "Problem.variables"
+    cls = next((n for n in ast.walk(pb) if isinstance(n, ast.ClassDef) and n.name == "Problem"), None)
+    fn = next((n for n in cls.body if isinstance(n, ast.FunctionDef) and n.name == "variables"), None) if cls else None
+    if fn is None:
+        raise TranslateError(f"{where} not found")
+    body = [st for st in _body(fn) if not isinstance(st, (ast.Import, ast.ImportFrom))]
+    # (1) memo read
+    if not (body and isinstance(body[0], ast.If) and _u(body[0].test) == "self._variables is not None"
+            and [_u(x) for x in body[0].body] == ["return self._variables"] and not body[0].orelse):
+        raise TranslateError(f"{where}: memo read {_u(body[0])[:80]!r}")
+    # every other return is `return self._variables` directly after an assignment to it
+    for node in ast.walk(fn):
+        blk = getattr(node, "body", None)
+        for lst in (blk, getattr(node, "orelse", None)):
+            if isinstance(lst, list):
+                for i, st in enumerate(lst):
+                    if isinstance(st, ast.Return) and not (node is body[0]):
+                        if _u(st) != "return self._variables" or i == 0 or not (
+                                isinstance(lst[i - 1], ast.Assign) and _u(lst[i - 1].targets[0]) == "self._variables"):
+                            raise TranslateError(f"{where}: a return that does not store the result in the memo slot first")
+    # (2) shortcut block
+    sc = body[1]
+    if not (isinstance(sc, ast.If) and _u(sc.test) == "self._objective is not None" and not sc.orelse and len(sc.body) == 2):
+        raise TranslateError(f"{where}: shortcut block {_u(sc)[:80]!r}")
+    a0, a1 = sc.body
+    if not (isinstance(a0, ast.Assign) and _u(a0.value) == "_try_get_single_vector_source(self._objective)"):
+        raise TranslateError(f"{where}: {_u(a0)!r}")
+    src = _u(a0.targets[0])
+    if not (isinstance(a1, ast.If) and _u(a1.test) == f"{src} is not None" and not a1.orelse and len(a1.body) == 3):
+        raise TranslateError(f"{where}: {_u(a1)[:80]!r}")
+    f0, loop, fin = a1.body
+    flag = _u(f0.targets[0]) if isinstance(f0, ast.Assign) else None
+    if flag is None or _u(f0.value) != "True":
+        raise TranslateError(f"{where}: flag initialisation {_u(f0)!r}")
+    if not (isinstance(loop, ast.For) and _u(loop.iter) == "self._constraints" and not loop.orelse and len(loop.body) == 2):
+        raise TranslateError(f"{where}: constraint loop")
+    cv = _u(loop.target)
+    l0, l1 = loop.body
+    if not (isinstance(l0, ast.Assign) and _u(l0.value) == f"_try_get_single_vector_source({cv}.expr)"):
+        raise TranslateError(f"{where}: {_u(l0)!r}")
+    csrc = _u(l0.targets[0])
+    if not (isinstance(l1, ast.If) and not l1.orelse and [_u(x) for x in l1.body] == [f"{flag} = False", "break"]):
+        raise TranslateError(f"{where}: loop body {_u(l1)[:80]!r}")
+
+    def cond(t):
+        if isinstance(t, ast.BoolOp):
+            op = " || " if isinstance(t.op, ast.Or) else " && "
+            return "(" + op.join(cond(v) for v in t.values) + ")"
+        u = _u(t)
+        if u == f"{csrc} is None":
+            return "isNone"
+        if u == f"{csrc} is not None":
+            return "(!isNone)"
+        if u == f"{csrc} is not {src}":
+            return "differs"
+        if u == f"{csrc} is {src}":
+            return "(!differs)"
+        raise TranslateError(f"{where}: loop test {u!r}")
+    ctest = cond(l1.test)
+    if not (isinstance(fin, ast.If) and _u(fin.test) == flag and not fin.orelse and len(fin.body) == 2
+            and _u(fin.body[0]) == f"self._variables = sorted({src}._variables, key=_natural_sort_key)"):
+        raise TranslateError(f"{where}: shortcut result {_u(fin)[:120]!r}")
+    out = ["/-- the shortcut test of `Problem.variables`: `svs` = `_try_get_single_vector_source`; the result is the vector whose",
+           "    elements are returned (sorted by `_natural_sort_key`), `none` = general path.  For one constraint: `isNone` = its",
+           "    source is None, `differs` = its source is not the objective's (object identity) -/",
+           "def shortcutG (svs : Expr → Option VVar) (obj : Option Expr) (cons : List Expr) : Option VVar :=",
+           "  match obj with",
+           "  | none => none",
+           "  | some o =>",
+           "    match svs o with",
+           "    | none => none",
+           "    | some src =>",
+           "      if cons.all (fun c =>",
+           "          let isNone := (svs c).isNone",
+           "          let differs := match svs c with | some s => s.oid != src.oid | none => true",
+           f"          !{ctest})",
+           "      then some src else none"]
+    gen = [" ".join(_u(st).split()) for st in body[2:]]
+    out += ["/-- the general path, statement by statement -/",
+            "def generalPathG : List String := [" + ", ".join(json.dumps(t) for t in gen) + "]"]
+    return "\n".join(out) + "\n"
+
+
 if __name__ == "__main__":
     import sys
     print(gen_problem_edit(ast.parse(open(sys.argv[1]).read())))
     print(gen_svs(ast.parse(open(sys.argv[1]).read())))
+    print(gen_problem_variables(ast.parse(open(sys.argv[1]).read())))
